@@ -66,6 +66,10 @@ let dispatch = function
       (match convertbits (zlist_of_tok l) (z_of f) (z_of t) (flag pad) with
        | CbOk r -> tok_of_zlist r | CbNone -> "None" | CbErr -> "ERR")
   | ["polymod"; l] -> str_z (polymod (zlist_of_tok l))
+  (* the fixed-length Base58Check guard of HDKey.from_wif / HDKey(xkey) (82) and bip38_decrypt (43): payload or ERR *)
+  | ["fixedchk"; total; s] ->
+      (match lib_fixed_check hash (nat_of_int (int_of_string total)) (bytes_of_hex s) with
+       | Some p -> "OK " ^ hex_of_bytes p | None -> "ERR")
   | "skip" :: _ -> "-"
   | _ -> "BADREQ"
 
